@@ -128,14 +128,31 @@ pub struct Fail {
 
 impl Fail {
     pub fn new(key: impl Into<String>, msg: impl Into<String>) -> Fail {
-        Fail {
-            key: key.into(),
-            msg: msg.into(),
+        let mut msg: String = msg.into();
+        if msg.len() > 6000 {
+            let mut cut = 6000;
+            while !msg.is_char_boundary(cut) {
+                cut -= 1;
+            }
+            msg.truncate(cut);
+            msg.push_str(" …[truncated]");
         }
+        Fail { key: key.into(), msg }
     }
 }
 
 pub type PropResult = Result<(), Fail>;
+
+/// Path to re-execute this harness. `/proc/self/exe` keeps working when the binary on disk is
+/// replaced by a rebuild while a long run is in progress (`current_exe()` then names a deleted file).
+pub fn own_exe() -> std::path::PathBuf {
+    let p = std::path::PathBuf::from("/proc/self/exe");
+    if p.exists() {
+        p
+    } else {
+        std::env::current_exe().unwrap_or(p)
+    }
+}
 
 #[macro_export]
 macro_rules! fail {
@@ -1055,6 +1072,12 @@ impl PropertyReport {
             for f in &sub.failures {
                 // one report per root cause (key), however many shards met it
                 if !seen_keys.insert(f.key.clone()) {
+                    continue;
+                }
+                // a failure of the machinery itself (worker could not be started, reference encoder
+                // refused its own plan, ...) says nothing about the property: inconclusive, exit 2
+                if f.key.starts_with("harness") {
+                    inconclusive.push(format!("sub-check {}: harness problem [{}]: {}", sub.name, f.key, f.msg.chars().take(300).collect::<String>()));
                     continue;
                 }
                 violations += 1;
